@@ -338,6 +338,12 @@ func Wrap(t types.Type, x string) string {
 		return fmt.Sprintf("(ite (and (<= (- %s) %s) (< %s %s)) %s (- (mod (+ %s %s) %s) %s))", h, x, x, h, x, x, h, m, h)
 	}
 	m := BigLit(Pow2(bits))
+	if len(x) <= 400 {
+		// one wrap up or down is spelled out linearly (what a single machine add
+		// or subtract of in-range operands can produce); mod only beyond that
+		m2 := BigLit(new(big.Int).Mul(Pow2(bits), big.NewInt(2)))
+		return fmt.Sprintf("(ite (and (<= 0 %s) (< %s %s)) %s (ite (and (<= %s %s) (< %s %s)) (- %s %s) (ite (and (<= (- %s) %s) (< %s 0)) (+ %s %s) (mod %s %s))))", x, x, m, x, m, x, x, m2, x, m, m, x, x, x, m, x, m)
+	}
 	return fmt.Sprintf("(ite (and (<= 0 %s) (< %s %s)) %s (mod %s %s))", x, x, m, x, x, m)
 }
 
